@@ -300,9 +300,21 @@ class W1TWorld(World):
                 elif k < 0.75 and len(has_nodes) >= 2:
                     a, b = rng.sample(has_nodes, 2)
                     ops.append({'op': 'add_link', 'g': own, 'a': a, 'b': b})
-                elif k < 0.85 and has_nodes:
+                elif k < 0.80 and has_nodes:
                     ops.append({'op': 'del_graph', 'g': own})
                     has_nodes = []
+                elif k < 0.85:
+                    # replace the own graph through the direct entry point (both stores replace there)
+                    n = rng.randint(1, 3)
+                    ids = []
+                    for i in range(n):
+                        ctr += 1
+                        ids.append('t%d-d%d' % (t, ctr))
+                    ops.append({'op': 'add_graph_direct', 'g': own, 'ids': ids, 'edges': [[0, 1]] if n > 1 else []})
+                    has_nodes = list(ids)
+                elif k < 0.89 and has_nodes:
+                    ctr += 1
+                    ops.append({'op': 'clone', 'g': own, 'new': 'G-t%d-c%d' % (t, ctr), 'nodes': list(has_nodes)})
                 elif k < 0.93:
                     ops.append({'op': 'extract', 'g': rng.choice([own, 'G-common', 'G-t0'])})
                 else:
@@ -394,6 +406,15 @@ class W1TWorld(World):
                     imp.import_graph_from_string(graph_string=text, graph_id=g)
                 else:
                     inst.add_graph(g, G)
+            elif op['op'] == 'add_graph_direct':
+                G = nx.Graph()
+                for i, nid in enumerate(op['ids']):
+                    G.add_node('n%d' % i, NodeID=nid, Class='NetworkNode', Name=nid, GraphID=g)
+                for a, b in op['edges']:
+                    G.add_edge('n%d' % a, 'n%d' % b, Class='has')
+                inst.add_graph_direct(g, G)
+            elif op['op'] == 'clone':
+                imp.graph_class(graph_id=g, importer=imp).clone_graph(new_graph_id=op['new'])
             elif op['op'] == 'add_node':
                 pg = imp.graph_class(graph_id=g, importer=imp)
                 pg.add_node(node_id=op['n'], label='NetworkNode', props={'Name': op['n']} if op['props'] else None)
@@ -517,6 +538,8 @@ class W1TWorld(World):
                 if r in ('injected', 'not_run', 'aborted'):
                     if op['op'] == 'add_node':
                         optional_nodes.setdefault(op['g'], set()).add(op['n'])
+                    elif op['op'] == 'clone':
+                        uncertain_graphs.add(op['new'])
                     elif op['op'] != 'extract':
                         uncertain_graphs.add(op['g'])
         for tid, rs in results.items():
@@ -537,9 +560,17 @@ class W1TWorld(World):
                 done = i < len(results[tid]) and results[tid][i] == 'ok'
                 if not done:
                     continue
-                if op['op'] == 'add_graph':
+                if op['op'] in ('add_graph', 'add_graph_direct'):
                     exp_nodes[g] = set(op['ids'])
                     exp_edges[g] = set(frozenset({op['ids'][a], op['ids'][b]}) for a, b in op['edges'])
+                elif op['op'] == 'clone':
+                    exp_nodes[op['new']] = set(exp_nodes.get(g, set()))
+                    exp_edges[op['new']] = set(exp_edges.get(g, set()))
+                    # what an injected crash left uncertain in the source is uncertain in its clone
+                    if g in uncertain_graphs:
+                        uncertain_graphs.add(op['new'])
+                    if optional_nodes.get(g):
+                        optional_nodes.setdefault(op['new'], set()).update(optional_nodes[g])
                 elif op['op'] == 'add_node':
                     exp_nodes.setdefault(g, set()).add(op['n'])
                 elif op['op'] == 'add_link':
@@ -552,9 +583,18 @@ class W1TWorld(World):
             for i, op in enumerate(ops):
                 if not (i < len(results[tid]) and results[tid][i] == 'ok'):
                     continue
-                if op['op'] == 'add_graph':
+                if op['op'] in ('add_graph', 'add_graph_direct'):
+                    for k2 in [k2 for k2 in exp_props if k2[0] == op['g']]:
+                        del exp_props[k2]
                     for nid in op['ids']:
                         exp_props[(op['g'], nid)] = {'GraphID': op['g'], 'NodeID': nid, 'Class': 'NetworkNode', 'Name': nid}
+                elif op['op'] == 'clone':
+                    for (gg, nid), pp in list(exp_props.items()):
+                        if gg == op['g']:
+                            exp_props[(op['new'], nid)] = dict(pp, GraphID=op['new'])
+                elif op['op'] == 'del_graph':
+                    for k2 in [k2 for k2 in exp_props if k2[0] == op['g']]:
+                        del exp_props[k2]
                 elif op['op'] == 'add_node':
                     d = {'GraphID': op['g'], 'NodeID': op['n'], 'Class': 'NetworkNode'}
                     if op['props']:
